@@ -133,6 +133,9 @@ func genURISpec(t *rapid.T) URISpec {
 		}
 	}
 	np := rapid.IntRange(0, 4).Draw(t, "nparams")
+	if oneIn(t, "nparams_needle", 40) {
+		np = manyN(t, "nparams_many", 110)
+	}
 	seen := map[string]bool{}
 	for i := 0; i < np; i++ {
 		var kv KV
@@ -155,6 +158,9 @@ func genURISpec(t *rapid.T) URISpec {
 	if rapid.IntRange(0, 3).Draw(t, "hashdrs") == 0 {
 		u.HasHdrs = true
 		nh := rapid.IntRange(1, 3).Draw(t, "nhdrs")
+		if oneIn(t, "nhdrs_needle", 15) {
+			nh = manyN(t, "nhdrs_many", 110)
+		}
 		seenh := map[string]bool{}
 		for i := 0; i < nh; i++ {
 			var kv KV
